@@ -274,10 +274,10 @@ def setAt (l : List α) (i : Nat) (x : α) : List α := l.set i x
 
 /-- one statement: `none` = does not compile -/
 def step (tbl : List Exps) (o : Ops α) (r : Rel α) (dflt : α) (s : State α) : Stmt α → Option (State α)
-  | .decl u e => do
-      let t ← typeOf tbl s.ctx (Expr.mk u e)
-      let _ := t
-      pure { s with ctx := s.ctx ++ [u], env := s.env ++ [value o s.env dflt e] }
+  | .decl u e =>
+      match typeOf tbl s.ctx (Expr.mk u e) with
+      | some _ => some { s with ctx := s.ctx ++ [u], env := s.env ++ [value o s.env dflt e] }
+      | none => none
   | .assign i e => do
       let u ← s.ctx[i]?
       let t ← typeOf tbl s.ctx e
